@@ -38,7 +38,7 @@ import (
 
 func c13PubGen(r *verifh.Rng) []verifh.Section {
 	var secs []verifh.Section
-	nsec := verifh.Scale(14, 60)
+	nsec := verifh.Scale(9, 40)
 	for i := 0; i < nsec; i++ {
 		excl := r.Chance(1, 3)
 		nv := r.Range(1, 3)
@@ -80,7 +80,13 @@ func c13PubGen(r *verifh.Rng) []verifh.Section {
 			return out
 		}
 		slow := 0 // operations that wait for the publisher's one-second ticker
-		faulty := i%verifh.Scale(4, 6) == 1 // sections with failing etcd calls (each failed attempt of doKeepAlive costs one real second)
+		if !verifh.Thorough() && (i%2 == 1 || i%3 == 1) {
+			slow = 1 // quick tier: at most one such wait per section, none besides the forced tail of a faulty section
+			if i%3 == 1 {
+				slow = 2
+			}
+		}
+		faulty := i%verifh.Scale(3, 5) == 1 // sections with failing etcd calls (each failed attempt of doKeepAlive costs one real second)
 		fault := func(kinds ...string) string {
 			if !faulty || !r.Chance(1, 2) {
 				return ""
@@ -127,7 +133,7 @@ func c13PubGen(r *verifh.Rng) []verifh.Section {
 				pubs[p] = &pst{state: "run", x: kind == "pubx"}
 				f := ""
 				if kind == "pub" {
-					if f = fault([]string{"grant", "put", "ka"}[(i/4+len(pubs))%3]); f != "" {
+					if f = fault([]string{"grant", "put", "ka"}[(i/verifh.Scale(3, 5)+len(pubs))%3]); f != "" {
 						f = f[:len(f)-1] + "1" // KeepAlive() is one attempt: exactly one call fails
 						pubs[p].state = "failed" // KeepAlive returned an error: no goroutine serves Pause / Resume
 					}
@@ -213,7 +219,7 @@ func c13PubGen(r *verifh.Rng) []verifh.Section {
 					ids = []int{p}
 				}
 				p := ids[r.Intn(len(ids))]
-				f := fmt.Sprintf(" !%s:1", []string{"grant", "put", "ka"}[(i/4)%3]) // every kind in every run
+				f := fmt.Sprintf(" !%s:1", []string{"grant", "put", "ka"}[(i/verifh.Scale(3, 5))%3]) // every kind in every run
 				if r.Chance(1, 2) {
 					ops = append(ops, fmt.Sprintf("kaclose %d%s", p, f))
 				} else {
